@@ -292,3 +292,111 @@ theorem toPair_noEq (s : Bytes) (h : 61 ∉ s) : toPair s = ([], []) := by
   rw [this]; simp
 
 end Udp
+
+namespace Udp
+
+/-! ### TrimSpace on arbitrary bytes: only the two ends matter -/
+
+theorem dropOne_none_iff (seqs : List Bytes) (s : Bytes) :
+    dropOne seqs s = none ↔ ∀ q ∈ seqs, q.isPrefixOf s = false := by
+  unfold dropOne
+  rw [List.findSome?_eq_none_iff]
+  constructor
+  · intro h q hq
+    have := h q hq
+    cases hp : q.isPrefixOf s
+    · rfl
+    · rw [hp] at this; simp at this
+  · intro h q hq; simp [h q hq]
+
+theorem prefix_append_sep (q a Y : Bytes) (c : Nat) (h : q.isPrefixOf (a ++ c :: Y) = true) :
+    q.isPrefixOf a = true ∨ c ∈ q := by
+  induction a generalizing q with
+  | nil =>
+    cases q with
+    | nil => left; rfl
+    | cons x q' =>
+      simp only [List.nil_append, List.isPrefixOf, Bool.and_eq_true, beq_iff_eq] at h
+      right; rw [h.1]; simp
+  | cons y a' ih =>
+    cases q with
+    | nil => left; rfl
+    | cons x q' =>
+      simp only [List.cons_append, List.isPrefixOf, Bool.and_eq_true, beq_iff_eq] at h
+      rcases ih q' h.2 with h' | h'
+      · left; simp [List.isPrefixOf, h.1, h']
+      · right; simp [h']
+
+/-- text that does not begin with white space still does not when an ASCII separator and more follow -/
+theorem dropOne_append_sep (seqs : List Bytes) (a Y : Bytes) (c : Nat) (hc : ∀ q ∈ seqs, c ∉ q)
+    (ha : dropOne seqs a = none) : dropOne seqs (a ++ c :: Y) = none := by
+  rw [dropOne_none_iff] at ha ⊢
+  intro q hq
+  cases hp : q.isPrefixOf (a ++ c :: Y)
+  · rfl
+  · rcases prefix_append_sep q a Y c hp with h | h
+    · rw [ha q hq] at h; cases h
+    · exact absurd h (hc q hq)
+
+/-- … also when a blank follows, provided the text is not empty -/
+theorem dropOne_append_blank (seqs : List Bytes) (a Y : Bytes) (hq : ∀ q ∈ seqs, q = [32] ∨ 32 ∉ q)
+    (hne : a ≠ []) (ha : dropOne seqs a = none) : dropOne seqs (a ++ 32 :: Y) = none := by
+  rw [dropOne_none_iff] at ha ⊢
+  intro q hqm
+  cases hp : q.isPrefixOf (a ++ 32 :: Y)
+  · rfl
+  · rcases prefix_append_sep q a Y 32 hp with h | h
+    · rw [ha q hqm] at h; cases h
+    · rcases hq q hqm with rfl | h'
+      · cases a with
+        | nil => exact absurd rfl hne
+        | cons y a' =>
+          simp only [List.cons_append, List.isPrefixOf, Bool.and_eq_true, beq_iff_eq] at hp
+          have := ha [32] hqm
+          simp [List.isPrefixOf, hp.1] at this
+      · exact absurd h h'
+
+theorem spaceSeqs_no59 : ∀ q ∈ spaceSeqs, 59 ∉ q := by decide
+theorem spaceSeqs_no61 : ∀ q ∈ spaceSeqs, 61 ∉ q := by decide
+theorem spaceSeqsRev_no61 : ∀ q ∈ spaceSeqs.map List.reverse, 61 ∉ q := by decide
+theorem spaceSeqs_blank32 : ∀ q ∈ spaceSeqs, q = [32] ∨ 32 ∉ q := by decide
+
+theorem dropOne_blank_head (Y : Bytes) : dropOne spaceSeqs (32 :: Y) = some Y := by
+  simp [dropOne, spaceSeqs, List.findSome?, List.isPrefixOf]
+
+theorem dropAll_of_none (seqs : List Bytes) (n : Nat) (s : Bytes) (h : dropOne seqs s = none) :
+    dropAll seqs n s = s := by
+  cases n with
+  | zero => rfl
+  | succ n => simp only [dropAll, h]
+
+theorem trimLeft_of_none (s : Bytes) (h : dropOne spaceSeqs s = none) : trimLeft s = s :=
+  dropAll_of_none _ _ _ h
+
+theorem trimRight_of_none (s : Bytes) (h : dropOne (spaceSeqs.map List.reverse) s.reverse = none) :
+    trimRight s = s := by
+  unfold trimRight; rw [dropAll_of_none _ _ _ h]; simp
+
+/-- one leading blank before text that does not begin with white space -/
+theorem trimLeft_blank (Y : Bytes) (h : dropOne spaceSeqs Y = none) : trimLeft (32 :: Y) = Y := by
+  unfold trimLeft
+  simp only [List.length_cons, dropAll, dropOne_blank_head]
+  exact dropAll_of_none _ _ _ h
+
+/-- a text neither begins nor ends with a white-space character -/
+def Clean (s : Bytes) : Prop :=
+  dropOne spaceSeqs s = none ∧ dropOne (spaceSeqs.map List.reverse) s.reverse = none
+
+instance (s : Bytes) : Decidable (Clean s) := by unfold Clean; infer_instance
+
+theorem trim_clean (s : Bytes) (h : Clean s) : trim s = s := by
+  unfold trim; rw [trimLeft_of_none s h.1, trimRight_of_none s h.2]
+
+theorem clean_nil : Clean [] := by decide
+
+/-- text without white-space lead bytes is clean -/
+theorem clean_noLead (s : Bytes) (hs : ∀ b ∈ s, isLead b = false) : Clean s :=
+  ⟨dropOne_none _ _ spaceSeqs_lead hs,
+   dropOne_none _ _ spaceSeqsRev_lead (by intro b hb; exact hs b (List.mem_reverse.mp hb))⟩
+
+end Udp
